@@ -245,6 +245,47 @@ def unit_wrapper_initial(S):
                     what="TimeLimit.initial starts the episode clock at 0")
 
 
+def native_gym_adapter_replay(model):
+    """R1: the real LeraxToGymEnv over TimeLimit(CartPole, 3) driven through every sequence of up to 6 operations over {step, reset(), reset(seed=5)}; after every operation the
+    property's own clauses are checked on the adapter's state: reset (and a flagged step) leaves an INITIAL state (episode clock and TimeLimit counter 0, reset-range coordinates) and
+    returns that state's own observation; an unflagged step advances the counter by one and returns the successor's observation; truncation is reported exactly at the 3rd step."""
+    import itertools
+    import lerax.wrapper as W_
+    from lerax.compatibility import gym as G
+    from lerax.env.classic_control import CartPole
+    env = W_.TimeLimit(CartPole(), 3)
+    ops = ("step", "reset", "seed")
+
+    def initial_and_own_obs(g, obs):
+        y = np.asarray(g.state.env_state.y, np.float64)
+        return int(g.state.step_count) == 0 and float(g.state.env_state.t) == 0.0 and bool(np.all(np.abs(y) <= 0.05 + 1e-6)) and np.allclose(np.asarray(obs, np.float64), y, atol=1e-7)
+    for n in (4, 6):
+        for seq in itertools.product(ops, repeat=n):
+            if n == 6 and seq.count("step") < 4:
+                continue
+            g = G.LeraxToGymEnv(env)
+            g.reset(seed=1)
+            for t, op in enumerate(seq):
+                prev_count = int(g.state.step_count)
+                if op == "step":
+                    obs, rew, term, trunc, _ = g.step(np.int64(t % 2))
+                    if term or trunc:
+                        ok = initial_and_own_obs(g, obs)
+                    else:
+                        ok = int(g.state.step_count) == prev_count + 1 and np.allclose(np.asarray(obs, np.float64), np.asarray(g.state.env_state.y, np.float64), atol=1e-7)
+                    ok = ok and bool(trunc) == (prev_count + 1 >= 3) and float(rew) == 1.0
+                    got = dict(obs=np.asarray(obs).tolist(), reward=float(rew), terminated=bool(term), truncated=bool(trunc))
+                else:
+                    obs, _ = g.reset(seed=5) if op == "seed" else g.reset()
+                    ok = initial_and_own_obs(g, obs)
+                    got = dict(obs=np.asarray(obs).tolist())
+                if not ok:
+                    return dict(reproduced=True, route="R1 (real LeraxToGymEnv over TimeLimit(CartPole(), 3); the property's clauses checked on the adapter's own state after every operation)",
+                                inputs=dict(operations=list(seq[:t + 1]), first_reset_seed=1),
+                                observed=dict(returned=got, state_after=dict(step_count=int(g.state.step_count), t=float(g.state.env_state.t), y=np.asarray(g.state.env_state.y).tolist()), step_count_before=prev_count))
+    return dict(reproduced=False, note="every operation sequence of length 4 and the step-heavy ones of length 6 keep the episode-boundary clauses")
+
+
 def unit_gym_adapter(S):
     """LeraxToGymEnv: (state', returned tuple) == env.step(state, asarray(action), key=k) with k derived from
     self.key and self.key' != k; reset likewise (stateful object against its abstract view (state, key))."""
@@ -256,18 +297,28 @@ def unit_gym_adapter(S):
                (G, "lerax_to_gym_space", lambda sp: None)]
     base = _box_env()
 
+    written = {"step": set(), "reset": set()}
+
+    def _changed(before, g):
+        after = dict(vars(g))
+        return {k_ for k_ in set(before) | set(after) if before.get(k_, _changed) is not after.get(k_, _changed)}
+
     def do_step(env, state, key, action):
         with extract.patched(*patches):
             g = G.LeraxToGymEnv(env)
             g.state, g.key = state, key
+            before = dict(vars(g))
             out = g.step(action)
+            written["step"] |= _changed(before, g)
             return g.state, g.key, out
 
     def do_reset(env, key):
         with extract.patched(*patches):
             g = G.LeraxToGymEnv(env)
             g.key = key
+            before = dict(vars(g))
             out = g.reset()
+            written["reset"] |= _changed(before, g)
             return g.state, g.key, out
 
     ctx = Ctx()
@@ -285,7 +336,7 @@ def unit_gym_adapter(S):
             cands.append(split(kc, z3.IntVal(n), z3.IntVal(i)))
     spec = run(ctx, lambda e, s, a, k: e.step(s, a, key=k), env_in, s_in, a_in, hk)
     goal = sand(kit.tree_eq(st2, spec[0]), kit.tree_eq(out, tuple(spec[1:])))
-    S.prove("LeraxToGymEnv.step/delegates", ctx, goal, holes={hc: cands}, function=fn_step,
+    S.prove("LeraxToGymEnv.step/delegates", ctx, goal, holes={hc: cands}, function=fn_step, replay=native_gym_adapter_replay,
             what="adapter's new state and returned (obs, reward, terminated, truncated, info) are env.step(self.state, action, key=k), k split from self.key")
     hn, hnc = kit.key_input("hole_next")
     distinct = cands[0] != cands[1]  # A-RNG: split is injective in the index
@@ -301,8 +352,23 @@ def unit_gym_adapter(S):
     cands = [split(kc, z3.IntVal(2), z3.IntVal(i)) for i in range(2)]
     spec = run(ctx, lambda e, k: e.reset(key=k), env_in, hk)
     goal = sand(kit.tree_eq(st2, spec[0]), kit.tree_eq(out, tuple(spec[1:])))
-    S.prove("LeraxToGymEnv.reset/delegates", ctx, goal, holes={hc: cands}, function=fn_reset,
+    S.prove("LeraxToGymEnv.reset/delegates", ctx, goal, holes={hc: cands}, function=fn_reset, replay=native_gym_adapter_replay,
             what="adapter's reset stores and returns env.reset(key=k), k split from self.key")
+
+    # frame: the adapter is a stateful object whose abstract view is (state, key); the two obligations above describe step / reset as functions of that view, which is the whole story
+    # only if step / reset write nothing else.  Another written attribute is hidden state outside the contract: decided natively over operation sequences (a reproduced divergence from
+    # the functional API is a violation; otherwise undecided).
+    extra = {op: sorted(w - {"state", "key"}) for op, w in written.items()}
+    if not any(extra.values()):
+        S.fact("LeraxToGymEnv/frame-only-state-and-key-written", True, function=fn_step, what="step and reset assign no instance attribute other than self.state and self.key: the adapter has no hidden state")
+    else:
+        rr = native_gym_adapter_replay(None)
+        if rr.get("reproduced"):
+            S.fact("LeraxToGymEnv/frame-only-state-and-key-written", False, function=fn_step, what="step / reset keep hidden state besides (state, key), and operation sequences exist on which the adapter departs from the functional API",
+                   detail=extra, replay=lambda m: rr)
+        else:
+            S.undecided("LeraxToGymEnv/frame-only-state-and-key-written", f"step / reset also write {extra}: hidden state outside the (state, key) contract; native operation sequences found no divergence", function=fn_step,
+                        what="hidden adapter state")
 
 
 UNITS = [("structure", unit_structure), ("wrapper-initial", unit_wrapper_initial), ("gym-adapter", unit_gym_adapter)] + \
